@@ -440,6 +440,12 @@ def progset_ops(R, case, P, pset, instr, rng):
                     co.sigma = 0.0 if rng.random() < 0.5 else None
                 ps = ps.sample()
             elif op == "reconcile":
+                try:
+                    ps.validate()
+                except Exception:
+                    continue  # e.g. a programme lost its only target population: not a valid program set to reconcile
+                if any(not [p_ for p_ in prog.target_pops if p_ in ps.pops] for prog in ps.programs.values()):
+                    continue
                 P.progsets.append(ps) if ps.name not in P.progsets else None
                 yr = float(P.settings.sim_start)
                 which = int(rng.choice([0, 1, 3]))  # (outcome bounds without baseline bounds select nothing to reconcile: ASD refuses an empty vector)
